@@ -24,16 +24,8 @@ open SockModel.Decimal
 pure digit string (no sign, no blank), and `strtoul` reads it completely as `p` -/
 theorem render_parse (p : Nat) :
     parseDec (render p) = some p ∧ isDigits (render p) = true ∧
-    (p < 2 ^ 64 → strtoulReads (render p) = some p) := by
-  have hd := isDigits_render p
-  refine ⟨by simp [parseDec, hd, decVal_render], hd, ?_⟩
-  intro hp
-  have hcap : cap64 = 18446744073709551616 := by decide
-  have hm : satVal cap64 (render p) = p := by
-    rw [satVal_eq, decVal_render, hcap]; omega
-  simp only [strtoulReads, dropWhile_isSpace_of_digits hd, signSplit_of_digits hd, hd, if_true, hm]
-  have : ¬ p ≥ cap64 := by rw [hcap]; omega
-  simp [this]
+    (p < 2 ^ 64 → strtoulReads (render p) = some p) :=
+  Lem.render_parse p
 
 /-- "all documented spellings - "h:p" or "[h]:p", with a scheme prefix and/or a path suffix, the
 pair (h, "p") - produce the same Address": for every host text `h` without ':' and '/', not
